@@ -7,10 +7,15 @@ import Rend.Types
 namespace Rend.Wire
 open Rend
 
-/-- `writeResponseHeader` -/
+/-- `writeResponseHeader`: the 24 bytes of a response header. -/
 def resHeader (opcode keyLen extLen status total opq : Nat) : Bytes :=
-  [UInt8.ofNat Gen.binprot_MagicResponse, UInt8.ofNat opcode] ++ Bytes.be16 keyLen ++ [UInt8.ofNat extLen, 0] ++
-  Bytes.be16 status ++ Bytes.be32 total ++ Bytes.be32 opq ++ Bytes.zeros 8
+  [UInt8.ofNat Gen.binprot_MagicResponse, UInt8.ofNat opcode,
+   UInt8.ofNat (keyLen / 256 % 256), UInt8.ofNat (keyLen % 256),
+   UInt8.ofNat extLen, 0,
+   UInt8.ofNat (status / 256 % 256), UInt8.ofNat (status % 256),
+   UInt8.ofNat (total / 16777216 % 256), UInt8.ofNat (total / 65536 % 256), UInt8.ofNat (total / 256 % 256), UInt8.ofNat (total % 256),
+   UInt8.ofNat (opq / 16777216 % 256), UInt8.ofNat (opq / 65536 % 256), UInt8.ofNat (opq / 256 % 256), UInt8.ofNat (opq % 256),
+   0, 0, 0, 0, 0, 0, 0, 0]
 
 def okHeader (opcode keyLen extLen total opq : Nat) : Bytes :=
   resHeader opcode keyLen extLen Gen.binprot_StatusSuccess total opq
